@@ -56,9 +56,9 @@ def check(w, tier, t0):
                   dict(NB=1, MAXLEN=2, BOTH="TRUE", pipeline="row")]
         nrandom, maxlen = 400, 8
     else:
-        spaces = [dict(NB=3, MAXLEN=3, BOTH="TRUE", pipeline="query"),
-                  dict(NB=1, MAXLEN=4, BOTH="TRUE", pipeline="raw"),
-                  dict(NB=7, MAXLEN=3, BOTH="FALSE", pipeline="create"),
+        spaces = [dict(NB=3, MAXLEN=3, BOTH="TRUE", pipeline="query"),     # 301 k histories
+                  dict(NB=1, MAXLEN=3, BOTH="TRUE", pipeline="raw"),        # 51 k
+                  dict(NB=7, MAXLEN=3, BOTH="FALSE", pipeline="create"),    # 15 k
                   dict(NB=6, MAXLEN=3, BOTH="FALSE", pipeline="delete"),
                   dict(NB=8, MAXLEN=2, BOTH="TRUE", pipeline="update")]
         nrandom, maxlen = 30000, 8
